@@ -75,6 +75,14 @@ class Lang:
     def __init__(self, fromk, tok, tparams, units):
         self.fromk, self.tok, self.tparams, self.units = fromk, tok, tparams, units
         self.ret = None
+        self.aliases = set()        # type aliases introduced by the using-declarations executed so far
+
+    def using(self, X, text):
+        """the only using-declaration of the translated bodies: `using Order = typename to_sparsity_t::Order;`"""
+        if text.replace(" ", "") == "usingOrder=typenameto_sparsity_t::Order":
+            self.aliases.add("Order")
+            return True
+        return False
 
     # ---- types
     def literal_default(self, v, what):
@@ -222,6 +230,8 @@ class Lang:
                 raise OutOfGrammar("%s: static_cast" % ex.what)
             ty = a[0][0][1]
             v = ex.sub(a[1])
+            if ty in ("Order", "T__Order") and "Order" not in self.aliases:
+                raise OutOfGrammar("%s: static_cast to Order without `using Order = typename to_sparsity_t::Order;`" % ex.what)
             if ty.endswith("Order") and v[0] in ("ORDC", "ORDO"):
                 want = ORDER_OF.get(self.tok)
                 if want != v[0]:
@@ -798,6 +808,10 @@ def unit_convert_sparsity(S):
     return u.defs
 
 
+KNOWN_WORK_SIZING = ["if (sparsity.symmetry != Symmetry::Unsymmetric) work.resize(sparsity.rows * sparsity.cols);",
+                     "if (permutation.size() > 0) work.resize(sparsity.nnz());"]
+
+
 def unit_ctor(S):
     name = "g_%s_ctor" % S.key
     m = list(re.finditer(r"(?<![\w:])SparsityConverter\s*\(\s*from_sparsity_t\s+from\s*,\s*Request(\s+request)?\s*=\s*\{\s*\}\s*\)", S.body))
@@ -807,6 +821,12 @@ def unit_ctor(S):
     inits_text = S.body[m[0].end():b].strip()
     e = sx.balanced(S.body, b, name)
     ast = ix.parse_body(S.body[b + 1:e], name)
+    # the size of the work buffer is not part of the model (its contents are written by the value provider before they are read),
+    # but the statements that size it are accounted for: exactly one of the known ones
+    known_work = [ix.parse_body(t, name)[0] for t in KNOWN_WORK_SIZING]
+    for st in ast:
+        if '"work"' in json.dumps(st, ensure_ascii=False) and st not in known_work:
+            raise OutOfGrammar("%s: statement on the work buffer other than the known sizing statements" % name)
     pre = []
     if inits_text:
         if not inits_text.startswith(":"):
@@ -822,6 +842,9 @@ def unit_ctor(S):
                 pre.append(("expr", [("id", "work"), ("op", "."), ("id", "resize"), ("op", "(")] + arg + [("op", ")")]))
             else:
                 pre.append(("assign", [("id", mem)], "=", arg))
+    nwork = len([st for st in ast if '"work"' in json.dumps(st, ensure_ascii=False)]) + len([st for st in pre if st[0] == "expr"])
+    if nwork != (1 if "work" in S.members else 0):
+        raise OutOfGrammar("%s: the work buffer is sized %d times" % (name, nwork))
     order = [s[1][0][1] if s[0] == "assign" else "work" for s in pre]
     if order != [mm for mm in S.members if mm in order]:
         raise OutOfGrammar("%s: member initialisers not in declaration order" % name)
@@ -1046,7 +1069,7 @@ def write_generic(repo, outfile, write_ref, units_fn, header, end, ref_path, ref
 
 def write(repo=None, outfile=None, write_ref=False):
     repo = repo or os.environ.get("VERIF_REPO", "/repo")
-    outfile = outfile or os.path.join(VERIF, "coq", "gen", "SparsityGen.v")
+    outfile = outfile or os.path.join(os.environ.get("VERIF_GEN_OUT") or os.path.join(VERIF, "coq", "gen"), "SparsityGen.v")
     return write_generic(repo, outfile, write_ref, lambda r: units(r, {}), HEADER, END, REF, "SparsityGen.ref.v",
                          "SparsityGen.v — by translate/gen_sparsity.py", os.path.join(repo, HPP) + " , " + os.path.join(repo, SPH))
 
